@@ -161,9 +161,9 @@ def run_case(case):
             return Outcome(labels=['skip-merge-fails'])
         raise Violation(f'C19: cannot parse the generated document: {type(e).__name__}: {e}{src}')
     if not well_formed(t0):
-        # e.g. a list/path node promoted over a mapping that kept protected entries: both views of the container
-        # disagree already in the original (C17 / C04 territory), copying such a tree is not what the statement is about
-        return Outcome(labels=['skip-illformed-original'])
+        # a container whose built-in storage and child map disagree (it used to happen when a list / path node was promoted over a
+        # mapping that kept protected entries, R35): no copy can be "equal" to that, and evaluation follows one view, merging the other
+        raise Violation(f'C19: the merged tree is not a well-formed tree to begin with: the built-in storage and the child map of a container disagree{src}')
     snap0 = snapshot(t0)
     explicit = any(tdoc.has_flags(n) for d in case['docs'] for p, n in tdoc.walk(d) if p)
     deep = max(tdoc.depth(d) for d in case['docs']) >= 2
